@@ -83,14 +83,14 @@ def rule_s2(chk: Check) -> None:
 
 
 def rule_s3(chk: Check) -> None:
-    chk.rule("S3", "the chunk parameter of data_received flows only into the buffer append; no read counter on self")
-    targets = [
-        SERVER_PROTO + ".data_received",
-        "client.protocol:GeminiClientProtocol.data_received",
-        "client.protocol:TitanClientProtocol.data_received",
-    ]
-    for key in targets:
-        fi = chk.proj.func(key)
+    chk.rule("S3", "the chunk parameter of the server's data_received flows only into the buffer append; no read counter on self; nothing read before the append; limits on an unterminated buffer leave room for a pending terminator")
+    segmentation_rules(chk, "S3", chk.proj.func(SERVER_PROTO + ".data_received"))
+
+
+def segmentation_rules(chk: Check, R: str, fi) -> None:
+    """Per data_received: the decision may depend on the accumulated buffer only.
+    Used for the server (C07.S3) and for the client protocols (C13.E6)."""
+    if True:
         param = [p for p in fi.params if p != "self"][0]
         uses = [n for n in walk(fi.node) if isinstance(n, ast.Name) and n.id == param and isinstance(n.ctx, ast.Load)]
         good = 0
@@ -104,8 +104,8 @@ def rule_s3(chk: Check) -> None:
                     good += 1
         ok = len(uses) == good and good >= 1
         if not ok:
-            chk.finding("S3", fi.key, f"chunk-use:{param}", f"the chunk `{param}` is read {len(uses)} times but only {good} of these are the buffer append: the outcome can depend on how reads are segmented", fi.loc())
-        chk.ob("S3", f"{fi.key}: chunk only appended", ok, evals=max(1, len(uses)))
+            chk.finding(R, fi.key, f"chunk-use:{param}", f"the chunk `{param}` is read {len(uses)} times but only {good} of these are the buffer append: the outcome can depend on how reads are segmented", fi.loc())
+        chk.ob(R, f"{fi.key}: chunk only appended", ok, evals=max(1, len(uses)))
         # nothing may be read from the buffer BEFORE the chunk is appended: such a
         # value (typically the old length) encodes where the read boundary fell.
         # Accepted idiom: old length used only as the start of a separator
@@ -136,19 +136,92 @@ def rule_s3(chk: Check) -> None:
                     okb = bool(uses) and safe == len(uses)
                 if not okb:
                     chk.finding(
-                        "S3", fi.key, f"pre-append-read:{norm(n.ast)[:50]}",
+                        R, fi.key, f"pre-append-read:{norm(n.ast)[:50]}",
                         f"`{norm(n.ast)[:80]}` reads the buffer before the new chunk is appended: the value records where the read boundary fell, so a decision based on it depends on how the stream was segmented (e.g. a separator split across two reads is missed)",
                         n.where(),
                     )
-                chk.ob("S3", f"{fi.key}: pre-append read `{norm(n.ast)[:40]}` is boundary-safe", okb)
+                chk.ob(R, f"{fi.key}: pre-append read `{norm(n.ast)[:40]}` is boundary-safe", okb)
         # no read counter / per-call accumulation other than the buffer
         bad = []
         for st in walk(fi.node):
             if isinstance(st, ast.AugAssign) and (dotted(st.target) or "").startswith("self.") and not is_self_attr(st.target, "buffer"):
                 bad.append(st)
         if bad:
-            chk.finding("S3", fi.key, f"counter:{norm(bad[0].target)}", f"`{norm(bad[0])}` accumulates per read: state depends on segmentation", fi.loc(bad[0]))
-        chk.ob("S3", f"{fi.key}: no per-read accumulator", not bad)
+            chk.finding(R, fi.key, f"counter:{norm(bad[0].target)}", f"`{norm(bad[0])}` accumulates per read: state depends on segmentation", fi.loc(bad[0]))
+        chk.ob(R, f"{fi.key}: no per-read accumulator", not bad)
+        length_limit_consistency(chk, R, fi)
+
+
+def _arms(expr: ast.AST, fn: ast.AST, depth: int = 0):
+    """Alternatives of a length expression: IfExp arms and single-assignment
+    locals are expanded.  Yields (arm expression, condition text under which it
+    is used or '')."""
+    if depth > 3:
+        yield expr, ""
+        return
+    if isinstance(expr, ast.IfExp):
+        for a, c in ((expr.body, norm(expr.test)), (expr.orelse, "not (" + norm(expr.test) + ")")):
+            for e2, c2 in _arms(a, fn, depth + 1):
+                yield e2, (c + " and " + c2) if c2 else c
+        return
+    if isinstance(expr, ast.Name):
+        ds = [st.value for st in walk(fn) if isinstance(st, ast.Assign) and len(st.targets) == 1 and dotted(st.targets[0]) == expr.id]
+        if len(ds) == 1:
+            yield from _arms(ds[0], fn, depth + 1)
+            return
+    yield expr, ""
+
+
+def length_limit_consistency(chk: Check, rule: str, fi, sep_len: int = 2) -> None:
+    """Early rejection of an *unterminated* buffer must leave room for a pending,
+    partly received terminator: if a complete line is refused from length t_T on,
+    the unterminated buffer may only be refused from t_T + len(separator) - 1 on.
+    Otherwise the same byte stream is accepted or refused depending on whether a
+    read boundary falls inside the terminator."""
+    proj = chk.proj
+    unterminated, terminated = [], []
+    for cmp in [c for c in walk(fi.node) if isinstance(c, ast.Compare) and len(c.ops) == 1 and isinstance(c.ops[0], (ast.Gt, ast.GtE))]:
+        lim = proj.eval_const(fi.module, cmp.comparators[0])
+        if not isinstance(lim, int) or isinstance(lim, bool) or lim <= 2:
+            continue  # `end >= 0` / `!= -1` are found-tests, not length limits
+        left = cmp.left
+        k = 0
+        if isinstance(left, ast.BinOp) and isinstance(left.op, (ast.Add, ast.Sub)) and isinstance(left.right, ast.Constant) and isinstance(left.right.value, int):
+            k = left.right.value if isinstance(left.op, ast.Add) else -left.right.value
+            left = left.left
+        t0 = lim - k + (1 if isinstance(cmp.ops[0], ast.Gt) else 0)
+        # the conjunct `CRLF not in self.buffer` of an enclosing `and`
+        conj = ""
+        for b in walk(fi.node):
+            if isinstance(b, ast.BoolOp) and isinstance(b.op, ast.And) and any(v is cmp for v in b.values):
+                conj = " and ".join(norm(v) for v in b.values if v is not cmp)
+        for arm, cond in _arms(left, fi.node):
+            t = t0
+            if isinstance(arm, ast.BinOp) and isinstance(arm.op, (ast.Add, ast.Sub)) and isinstance(arm.right, ast.Constant) and isinstance(arm.right.value, int):
+                t = t0 - (arm.right.value if isinstance(arm.op, ast.Add) else -arm.right.value)
+                arm = arm.left
+            txt = norm(arm)
+            ctx = (cond + " " + conj).strip()
+            if txt == "len(self.buffer)":
+                absent = ("not in self.buffer" in ctx) or ("not (" in ctx and (">= 0" in ctx or "!= -1" in ctx or " in self.buffer" in ctx)) or ("< 0" in ctx) or ("== -1" in ctx)
+                if absent:
+                    unterminated.append((t, cmp))
+            elif isinstance(arm, ast.Call) and dotted(arm.func) == "len" and arm.args and isinstance(arm.args[0], ast.Name) and "line" in arm.args[0].id:
+                terminated.append((t, cmp))
+            elif isinstance(arm, ast.Call) and method_call(arm) and method_call(arm)[1] in ("find", "index") and dotted(method_call(arm)[0]) == "self.buffer":
+                terminated.append((t, cmp))
+    if not unterminated or not terminated:
+        return
+    t_t = min(t for t, _ in terminated)
+    for t_u, cmp in unterminated:
+        ok = t_u >= t_t + sep_len - 1
+        if not ok:
+            chk.finding(
+                rule, fi.key, f"limit-ignores-pending-terminator:{norm(cmp)[:50]}",
+                f"`{norm(cmp)}` refuses an unterminated buffer of {t_u} bytes, while a complete line is only refused from {t_t} bytes on: a maximal legal line whose CR has arrived but whose LF has not is refused, although the same bytes delivered in one read are accepted",
+                fi.loc(cmp),
+            )
+        chk.ob(rule, f"{fi.key}: unterminated limit {t_u} >= terminated limit {t_t} + {sep_len - 1}", ok)
 
 
 def rule_s4(chk: Check) -> None:
